@@ -115,9 +115,12 @@ def run(ctx):
             rec4 = cfgrun.Recorder()
             m = {}
             dup = rng.choice(names_needed)
-            a_, b_ = dup.lower(), dup.upper()
-            if a_ == b_:
+            # any two different spellings of one name: with or WITHOUT the canonical (lower-case) one among them
+            spell = sorted({dup.lower(), dup.upper(), dup.capitalize(), dup[:-1] + dup[-1].upper(),
+                            cfggen._case_variant(rng, dup), cfggen._case_variant(rng, dup)})
+            if len(spell) < 2:
                 continue
+            a_, b_ = rng.sample(spell, 2)
             m[a_] = None if first_none else rec4.fn(dup)
             m[b_] = rec4.fn(dup)
             for n in names_needed:
